@@ -41,3 +41,13 @@ Theorem C11_removed_is_forever : forall calls s d g,
   is_removed s d g = true -> is_removed (lrun s calls) d g = true.
 Proof. exact removed_is_forever. Qed.
 Print Assumptions C11_removed_is_forever.
+
+(* a removed document stores no further change: whatever a later sync, detach or second removal
+   by any client carries, the number of changes stored for it stays what it was (finding P47,
+   repaired: pushPack discards what is pushed to a removed document) *)
+Theorem C11_removed_stores_no_further_change : forall s call d g,
+  is_removed s d g = true ->
+  match call with LAttach _ _ _ | LAttachSame _ _ _ => False | _ => True end ->
+  wget (l_writes (snd (lstep s call))) d g = wget (l_writes s) d g.
+Proof. exact removed_stores_no_further_change. Qed.
+Print Assumptions C11_removed_stores_no_further_change.
